@@ -17,7 +17,7 @@ ID = 'C08'
 
 MANIFEST = {
     'engine': 'symx',
-    'text': 'Bounded symbolic exploration of the real estimate_importances_minibatches loop (real csv parser, real pandas median aggregation and checkpoint file, batch scorer replaced by a recorder with known scores) and of the real outrank_task_conduct_ranking end to end (real batch scorer, serial pool stub): the number of data lines, which lines are malformed (one field short / one too many), the subsampling factor and the mini-batch size are symbolic and decided by the solver; on every path the consumed rows, the batch boundaries, the dropped remainder, the tail rule (>1024 rows, explored with 1020..1030-line files), the invalid-line count, the checkpoint after every batch, the returned medians, the ascending order of pairwise_ranks.tsv, the name annotations and the exported counters are compared with a reference written from the statement. Path sets are certified complete.',
+    'text': 'Bounded symbolic exploration of the real estimate_importances_minibatches loop (real csv parser, real pandas median aggregation and checkpoint file, batch scorer replaced by a recorder with known scores) and of the real outrank_task_conduct_ranking end to end (real batch scorer, serial pool stub): the number of data lines, which lines are malformed (one field short / one too many), whether the last line carries a line terminator, the subsampling factor and the mini-batch size are symbolic and decided by the solver; on every path the consumed rows, the batch boundaries, the dropped remainder, the tail rule (>1024 rows, explored with 1020..1030-line files), the invalid-line count, the checkpoint after every batch, the returned medians, the ascending order of pairwise_ranks.tsv, the name annotations and the exported counters are compared with a reference written from the statement. Condition order replaces the scores of three pairs by solver-chosen values that differ by 1e-7..4e-7 and requires pairwise_ranks.tsv to be in ascending order of the written scores. Path sets are certified complete.',
     'note': 'Inputs are concretised by solver decisions (bounded-exhaustive exploration through the real code; the solver certifies completeness of the explored set). Files <=5 lines (quick) / <=7 (thorough), subsampling 1..3, batch size 1..3; tail rule with batch sizes {1025,1026,2000}. The file is a list of text lines (file stub) in the loop condition and a real file in the task condition; gzip input, the progress bar and the real process pool are outside.',
     'technique': 'solver-driven bounded exploration of the real Python code (z3 decides every input choice; coverage certificate), reference-semantics oracle',
 }
@@ -26,7 +26,7 @@ BOUNDS = {'quick': {'stream': 4, 'tail': 1, 'task': 4}, 'thorough': {'stream': 6
 INFO = {
     'engine': 'symx + z3 (inputs concretised by decisions) + real pandas/csv',
     'explanation': 'see level text',
-    'bounds': {t: {'stream': f'<= {b["stream"]} data lines, per line good/short/long/blank/quoted-delimiter, subsampling 1..3, minibatch 1..3', 'tail': 'N in 1020..1030 good lines, minibatch in {1025, 1026, 2000}',
+    'bounds': {t: {'stream': f'<= {b["stream"]} data lines, per line good/short/long/blank/quoted-delimiter, last line with/without its terminator, subsampling 1..3, minibatch 1..3', 'tail': 'N in 1020..1030 good lines, minibatch in {1025, 1026, 2000}, last line with/without terminator', 'order': 'one batch of 3 rows, scores of three pairs chosen from {0.5, 0.5000001, 0.5000004}',
                    'task': f'<= {b["task"]} data lines (good/short), subsampling 1..2, minibatch 2..3, real scorer MI-numba-randomized'} for t, b in BOUNDS.items()},
     'outside': ['gzip input', 'progress bar', 'the real process pool (serial stub with the documented order-preserving contract)', 'files longer than the bound'],
     'assumptions': ['open() replaced by a list-of-lines stream in the loop condition', 'recorder scores are distinct known constants per (batch, pair)'],
@@ -35,6 +35,18 @@ INFO = {
 
 COLS = ['fa', 'fb', 'label']
 SCORES = [3.0, 3.0, 10.0, 1.0, 10.0, 2.0, 3.0, 4.0]   # repeated values: the median of all per-batch scores differs from the median of the distinct ones
+
+
+def mk_lines(kinds, eol=True):
+    """the data lines; eol=False: the last line of the file has no line terminator (still a complete row)"""
+    lines = [line(i, k) for i, k in enumerate(kinds)]
+    if not eol and lines and lines[-1].rstrip('\n'):
+        lines[-1] = lines[-1].rstrip('\n')
+    return lines
+
+
+NEAR = [0.5, 0.5000001, 0.5000004]      # distinct scores closer than any display rounding; "ascending score order" still orders them
+NEAR_PAIRS = [('fa', 'fb'), ('fa', 'label'), ('fb', 'label')]
 
 
 def line(i, kind):
@@ -172,7 +184,7 @@ def check_loop(rec, kinds, sub, mb, tail_min=1024):
 
 # ---- end-to-end task ---------------------------------------------------------------------------
 
-def drive_task(lines, sub, mb, heuristic='MI-numba-randomized'):
+def drive_task(lines, sub, mb, heuristic='MI-numba-randomized', scores=None):
     import pandas as pd
     cr, cu, tr, ie = PL.real_modules()
     d = tempfile.mkdtemp(prefix='c08t-', dir='/var/tmp')
@@ -188,6 +200,10 @@ def drive_task(lines, sub, mb, heuristic='MI-numba-randomized'):
     def wrap(line_tmp_storage, *a, **k):
         rec['batches'].append([list(r) for r in line_tmp_storage])
         r = real_cbr(line_tmp_storage, *a, **k)
+        if scores:
+            # the scorer's values for three pairs are replaced by solver-chosen near-ties (both orientations alike)
+            from outrank.core_utils import BatchRankingSummary
+            r = (BatchRankingSummary([(x, y, scores.get(frozenset((x, y)), sc)) for x, y, sc in r[0].triplet_scores], r[0].step_times),) + tuple(r[1:])
         rec['trip'].append(list(r[0].triplet_scores))
         rec['cov'].append(dict(r[2]))
         return r
@@ -293,6 +309,8 @@ def jobs(tier):
             out.append({'cond': 'stream', 'n': n, 'pins': pins, 'weight': 3 ** n, 'label': f'n={n},{pins}'})
     for mb in (1025, 1026, 2000):
         out.append({'cond': 'tail', 'mb': mb, 'pins': {}, 'weight': 50, 'label': f'mb={mb}'})
+    for s0 in range(len(NEAR)):
+        out.append({'cond': 'order', 'n': 3, 'pins': {'sc0': s0}, 'weight': 9, 'label': f'near-tied scores, sc0={s0}'})
     for n in range(0, b['task'] + 1):
         for sub in (1, 2):
             out.append({'cond': 'task', 'n': n, 'pins': {'sub': sub}, 'weight': 2 ** n * 20, 'label': f'n={n},sub={sub}'})
@@ -304,7 +322,7 @@ def run_job(job):
     cr, cu, tr, ie = PL.real_modules()
     loader.record_functions('outrank/core_ranking.py', ['estimate_importances_minibatches', 'get_grouped_df', 'checkpoint_importances_df'])
     loader.record_functions('outrank/core_utils.py', ['generic_line_parser', 'parse_ob_csv_line'])
-    if cond == 'task':
+    if cond in ('task', 'order'):
         loader.record_functions('outrank/task_ranking.py', ['outrank_task_conduct_ranking'])
         loader.record_functions('outrank/core_ranking.py', ['compute_batch_ranking', 'mixed_rank_graph'])
     st = {}
@@ -312,6 +330,7 @@ def run_job(job):
     def setup(ctx):
         if cond == 'tail':
             st['n'] = z3.Int('n')
+            st['eol'] = z3.Bool('eol')
             ctx.assume(st['n'] >= 1020, st['n'] <= 1030)
             return
         n = job['n']
@@ -321,6 +340,15 @@ def run_job(job):
             ctx.assume(v >= 0, v < nk)
         st['sub'] = z3.Int('sub')
         st['mb'] = z3.Int('mb')
+        st['eol'] = z3.Bool('eol')
+        if cond == 'order':
+            st['sc'] = [z3.Int(f'sc{i}') for i in range(len(NEAR_PAIRS))]
+            for v in st['sc']:
+                ctx.assume(v >= 0, v < len(NEAR))
+            ctx.assume(st['sub'] == 1, st['mb'] == 3, st['eol'])
+            for v in st['k']:
+                ctx.assume(v == 0)
+            return
         if cond == 'stream':
             ctx.assume(st['sub'] >= 1, st['sub'] <= 3, st['mb'] >= 1, st['mb'] <= 3)
         else:
@@ -338,11 +366,18 @@ def run_job(job):
             kinds = [int(SInt(v, 0, 4)) for v in st['k']]
             sub = int(SInt(st['sub'], 1, 3))
             mb = int(SInt(st['mb'], 1, 3))
-        lines = [line(i, k) for i, k in enumerate(kinds)]
-        w = {'cond': cond, 'kinds': kinds if cond != 'tail' else n, 'sub': sub, 'mb': mb}
+        eol = True if cond in ('order',) else bool(symx.SBool(st['eol'])) if 'eol' in st else True
+        if cond == 'tail':
+            eol = bool(symx.SBool(st['eol']))
+        lines = mk_lines(kinds, eol)
+        w = {'cond': cond, 'kinds': kinds if cond != 'tail' else n, 'sub': sub, 'mb': mb, 'eol': eol}
+        scores = None
+        if cond == 'order':
+            scores = {frozenset(p): NEAR[int(SInt(v, 0, len(NEAR) - 1))] for p, v in zip(NEAR_PAIRS, st['sc'])}
+            w['scores'] = [scores[frozenset(p)] for p in NEAR_PAIRS]
         try:
-            if cond == 'task':
-                probs = check_task(drive_task(lines, sub, mb), kinds, sub, mb)
+            if cond in ('task', 'order'):
+                probs = check_task(drive_task(lines, sub, mb, scores=scores), kinds, sub, mb)
             else:
                 probs = check_loop(drive_loop(cr, cu, [','.join(COLS) + '\n'] + lines, sub, mb), kinds, sub, mb)
         except Exception as e:
@@ -361,10 +396,11 @@ def replay(w):
     cr, cu, tr, ie = PL.real_modules()
     cond, sub, mb = w['cond'], w['sub'], w['mb']
     kinds = [0] * w['kinds'] if cond == 'tail' else w['kinds']
-    lines = [line(i, k) for i, k in enumerate(kinds)]
+    lines = mk_lines(kinds, w.get('eol', True))
+    scores = {frozenset(p): v for p, v in zip(NEAR_PAIRS, w['scores'])} if w.get('scores') else None
     try:
-        if cond == 'task':
-            probs = check_task(drive_task(lines, sub, mb), kinds, sub, mb)
+        if cond in ('task', 'order'):
+            probs = check_task(drive_task(lines, sub, mb, scores=scores), kinds, sub, mb)
         else:
             probs = check_loop(drive_loop(cr, cu, [','.join(COLS) + '\n'] + lines, sub, mb), kinds, sub, mb)
     except Exception as e:
@@ -373,5 +409,5 @@ def replay(w):
         return {'reproduced': True, 'signature': f'C08:{cond}:exception:{type(e).__name__}:{tb.name}', 'what': f'{cond}: lines {w["kinds"]}, subsampling {sub}, minibatch {mb}: {type(e).__name__}: {e} in {tb.name} ({os.path.basename(tb.filename)}:{tb.lineno})'}
     if probs:
         key = probs[0].split()[0]
-        return {'reproduced': True, 'signature': f'C08:{cond}:{key}', 'what': f'{cond}: line kinds {w["kinds"]} (0 good, 1 short, 2 long, 3 blank, 4 quoted delimiter), subsampling {sub}, minibatch {mb}: ' + '; '.join(probs)[:600]}
+        return {'reproduced': True, 'signature': f'C08:{cond}:{key}', 'what': f'{cond}: line kinds {w["kinds"]} (0 good, 1 short, 2 long, 3 blank, 4 quoted delimiter), subsampling {sub}, minibatch {mb}' + ('' if w.get('eol', True) else ', last line without terminator') + (f', scores {w["scores"]} for {NEAR_PAIRS}' if w.get('scores') else '') + ': ' + '; '.join(probs)[:600]}
     return {'reproduced': False, 'what': 'reference semantics observed'}
